@@ -187,3 +187,73 @@ func triggerLiteralUnit(prop, harness string) fw.Result {
 	a.sample(map[string]any{"literals": lits, "predicate": "last_value(t) = '<literal>'"})
 	return a.result()
 }
+
+// c05FromAlias: FROM stream AS s / FROM stream s without a JOIN. The alias is part of the accepted grammar; a column
+// qualified with it (s.a) is the row's column a, in the SELECT list and in WHERE; unqualified names keep working and
+// SELECT * returns exactly the row's columns.
+func c05FromAlias() fw.Result {
+	a := newAcc("C05", "sync-projection-from-alias")
+	rows := []Row{{"id": 1, "a": 1, "k": "x"}, {"id": 2, "a": 2, "k": "y"}, {"id": 3, "a": nil, "k": "z"}, {"id": 4, "k": "w"}}
+	type q struct {
+		sql  string
+		keep func(r Row) bool
+		proj func(r Row) Row
+		qual bool // uses a qualified reference
+	}
+	gt1 := func(r Row) bool { f, ok := num(r["a"]); return ok && f > 1 }
+	all := func(Row) bool { return true }
+	var qs []q
+	for _, from := range []string{"stream AS s", "stream s"} {
+		qs = append(qs,
+			q{"SELECT s.id, s.a AS x FROM " + from, all, func(r Row) Row { return Row{"id": r["id"], "x": r["a"]} }, true},
+			q{"SELECT id, a FROM " + from + " WHERE s.a > 1", gt1, func(r Row) Row { return Row{"id": r["id"], "a": r["a"]} }, true},
+			q{"SELECT s.id, s.k FROM " + from + " WHERE a > 1", gt1, func(r Row) Row { return Row{"id": r["id"], "k": r["k"]} }, true},
+			q{"SELECT id, a AS x FROM " + from + " WHERE a > 1", gt1, func(r Row) Row { return Row{"id": r["id"], "x": r["a"]} }, false},
+			q{"SELECT * FROM " + from, all, func(r Row) Row { return copyVal(r).(Row) }, false})
+	}
+	for _, qq := range qs {
+		res, execErr, st, pv := syncEval(qq.sql, rows)
+		a.r.Evaluations += int64(len(rows))
+		a.r.States += int64(len(rows))
+		cs := map[string]any{"sql": qq.sql, "rows": rows}
+		if execErr != "" || st != sched.StatusOK {
+			a.fail("C05|from-alias|exec", execErr+" "+st.String()+" "+firstLine(pv), cs, nil, nil)
+			continue
+		}
+		for i, r := range rows {
+			a.r.Nontrivial++
+			var want Row
+			if qq.keep(r) {
+				want = qq.proj(r)
+				for k, v := range want {
+					if f, ok := num(v); ok {
+						want[k] = f
+					}
+				}
+			}
+			got := res[i].Row
+			if got != nil {
+				g := Row{}
+				for k, v := range got {
+					if f, ok := num(v); ok {
+						g[k] = f
+					} else {
+						g[k] = v
+					}
+				}
+				got = g
+			}
+			a.outcome(qq.sql + js(got))
+			if js(got) != js(want) {
+				kind := "unqualified"
+				if qq.qual {
+					kind = "qualified-reference"
+				}
+				a.fail("C05|from-alias|"+kind+"|wrong-result", fmt.Sprintf("%s over %s yields %s, reference %s", qq.sql, js(r), js(got), js(want)), cs, want, got)
+				break
+			}
+		}
+	}
+	a.sample(map[string]any{"queries": len(qs), "rows": rows})
+	return a.result()
+}
